@@ -227,23 +227,30 @@ def run(ctx):
     ph.append({'e': 'Call', 'key': f'buffered_shuffle({length},{b},{seed})', 'out': ctx_intern(ctx, out2)})
     ctx.case(key=('bs', length, b, seed), nontrivial=b < length)
   # shuffled_clients over a real federated dataset: rng internal -> swaps inferred by TLC
-  for _ in range(60 if big else 16):
+  for sc_i in range(60 if big else 24):
     ncl = rng.randint(1, 9)
-    b = rng.randint(1, 5)
+    b = rng.choice([1, 2, 3, 5, ncl, ncl + 1, ncl + 2, ncl + 7])     # buffers shorter than, equal to and longer than the population
     seed = rng.choice([0, rng.randint(1, 10**6)])
     fd = fedjax.InMemoryFederatedData({b'c%03d' % i: {'x': np.arange(i + 1)} for i in range(ncl)})
+    fd_kind = ('InMemoryFederatedData', 'SubsetFederatedData', 'slice')[sc_i % 3]
+    if fd_kind != 'InMemoryFederatedData':
+      # the same population as a derived view of a larger dataset
+      more = {b'c%03d' % i: {'x': np.arange(i + 1)} for i in range(ncl)}
+      more.update({b'a-before': {'x': np.arange(2)}, b'z-after': {'x': np.arange(3)}})
+      wider = fedjax.InMemoryFederatedData(more)
+      fd = fedjax.SubsetFederatedData(wider, [b'c%03d' % i for i in range(ncl)]) if fd_kind == 'SubsetFederatedData' else wider.slice(start=b'c', stop=b'd')
     order = {cid: i + 1 for i, cid in enumerate(fd.client_ids())}
     it = fd.shuffled_clients(buffer_size=b, seed=seed)
     passes = [[order[next(it)[0]] for _ in range(ncl)] for _ in range(2)]
     it2 = fd.shuffled_clients(buffer_size=b, seed=seed)
     again = [[order[next(it2)[0]] for _ in range(ncl)] for _ in range(2)]
-    ph.append({'e': 'Call', 'key': f'shuffled_clients({ncl},{b},{seed})', 'out': ctx_intern(ctx, passes)})
-    ph.append({'e': 'Call', 'key': f'shuffled_clients({ncl},{b},{seed})', 'out': ctx_intern(ctx, again)})
+    ph.append({'e': 'Call', 'key': f'{fd_kind}.shuffled_clients({ncl},{b},{seed})', 'out': ctx_intern(ctx, passes)})
+    ph.append({'e': 'Call', 'key': f'{fd_kind}.shuffled_clients({ncl},{b},{seed})', 'out': ctx_intern(ctx, again)})
     for p in passes:
       ev = [{'e': 'Init', 'logged': False, 'buf': []}] + [{'e': 'Yield', 'v': v, 'swap': -1} for v in p] + [{'e': 'End'}]
       strs.append({'len': ncl, 'b': b, 'expect_shuffled': False, 'events': ev,
-                   'meta': {'seed': seed, 'fn': 'InMemoryFederatedData.shuffled_clients'}})
-    ctx.case(key=('sc', ncl, b, seed), nontrivial=b < ncl)
+                   'meta': {'seed': seed, 'fn': fd_kind + '.shuffled_clients'}})
+    ctx.case(key=('sc', fd_kind, ncl, b, seed), nontrivial=b < ncl or fd_kind != 'InMemoryFederatedData')
   # buffered_shuffle_batch_client_datasets: harness rng -> fully logged; the flattened stream is one shuffle pass
   for _ in range(200 if big else 40):
     m = rng.randint(0, 5)
